@@ -168,4 +168,263 @@ theorem dimOK_varying (sizes : List Nat) (hpos : ∀ s ∈ sizes, 0 < s) :
     obtain ⟨rfl, rfl⟩ := h2
     exact scan_mono sizes 0 c c' _ _ _ _ hlt h1 h3
 
+theorem dimOK_new (c : DimCfg) (a G : Nat) (hwf : Grid.wfDim (Dim.new c) = true)
+    (hG : (Dim.new c).gridShape a = some G) : DimOK (Dim.new c) a G := by
+  cases c with
+  | fixed s =>
+    simp only [Dim.new, Grid.wfDim, decide_eq_true_eq] at hwf
+    simp only [Dim.new, Dim.gridShape, Option.some.injEq] at hG
+    subst hG
+    exact dimOK_fixed s a hwf
+  | varying sizes =>
+    simp only [Dim.new, Grid.wfDim, List.all_eq_true, decide_eq_true_eq] at hwf
+    simp only [Dim.new, Dim.gridShape, lastEnd_scanOffsets_zero, scanOffsets_length] at hG
+    split at hG
+    · rename_i h
+      simp only [beq_iff_eq] at h
+      simp only [Option.some.injEq] at hG
+      subst h hG
+      apply dimOK_varying
+      intro s hs
+      rw [← scanOffsets_map_snd sizes 0] at hs
+      obtain ⟨p, hp, rfl⟩ := List.mem_map.mp hs
+      exact hwf p hp
+    · cases hG
+
+/-- two chunks below the grid shape containing the same element are the same chunk -/
+theorem DimOK.uniq {d : Dim} {a G : Nat} (h : DimOK d a G) {c c' o s o' s' i : Nat}
+    (hc : c < G) (hc' : c' < G)
+    (ho : d.origin c = some o) (hs : d.chunkShape c = some s) (h1 : o ≤ i) (h2 : i < o + s)
+    (ho' : d.origin c' = some o') (hs' : d.chunkShape c' = some s') (h1' : o' ≤ i) (h2' : i < o' + s') :
+    c' = c := by
+  rcases Nat.lt_trichotomy c c' with hlt | heq | hgt
+  · have := h.mono c c' o s o' hlt hc' ho hs ho'; omega
+  · exact heq.symm
+  · have := h.mono c' c o' s' o hgt hc ho' hs' ho; omega
+
+/-- one dimension of `chunks_in_array_subset` -/
+theorem DimOK.chunksIn {d : Dim} {a G : Nat} (h : DimOK d a G) (st sh : Nat) (hle : st + sh ≤ a)
+    (hpos : 0 < sh) :
+    ∃ cs ce, d.chunkIndex st = some cs ∧ d.chunkIndex (st + sh - 1) = some ce ∧
+      ∀ c, (cs ≤ c ∧ c < cs + (ce - cs + 1)) ↔
+        (c < G ∧ ∃ o s i, d.origin c = some o ∧ d.chunkShape c = some s ∧ o ≤ i ∧ i < o + s ∧
+          st ≤ i ∧ i < st + sh) := by
+  obtain ⟨cs, os, ss, hcsG, hcs, hos, hss, hs1, hs2, -⟩ := h.locate st (by omega)
+  obtain ⟨ce, oe, se, hceG, hce, hoe, hse, he1, he2, -⟩ := h.locate (st + sh - 1) (by omega)
+  have hcse : cs ≤ ce := by
+    apply Nat.le_of_not_lt
+    intro hlt
+    have := h.mono ce cs oe se os hlt hcsG hoe hse hos
+    omega
+  refine ⟨cs, ce, hcs, hce, ?_⟩
+  intro c
+  constructor
+  · rintro ⟨h1, h2⟩
+    have hcG : c < G := by omega
+    obtain ⟨o, s, ho, hs, hspos⟩ := h.defined c hcG
+    refine ⟨hcG, o, s, max o st, ho, hs, ?_⟩
+    have hA : st < o + s := by
+      rcases Nat.lt_or_ge cs c with hlt | hge
+      · have := h.mono cs c os ss o hlt hcG hos hss ho; omega
+      · have : c = cs := by omega
+        subst this
+        rw [hos] at ho; rw [hss] at hs
+        cases ho; cases hs; exact hs2
+    have hB : o ≤ st + sh - 1 := by
+      rcases Nat.lt_or_ge c ce with hlt | hge
+      · have := h.mono c ce o s oe hlt hceG ho hs hoe; omega
+      · have : c = ce := by omega
+        subst this
+        rw [hoe] at ho
+        cases ho; exact he1
+    omega
+  · rintro ⟨hcG, o, s, i, ho, hs, h1, h2, h3, h4⟩
+    have hA : cs ≤ c := by
+      apply Nat.le_of_not_lt
+      intro hlt
+      have := h.mono c cs o s os hlt hcsG ho hs hos
+      omega
+    have hB : c ≤ ce := by
+      apply Nat.le_of_not_lt
+      intro hlt
+      have := h.mono ce c oe se o hlt hcG hoe hse ho
+      omega
+    omega
+
+/-! ### lifting to N dimensions -/
+
+theorem match_cons_some {α} {x : Option α} {y : Option (List α)} {l : List α} :
+    (match x, y with
+      | some c, some cs => some (c :: cs)
+      | _, _ => none) = some l ↔ ∃ c cs, x = some c ∧ y = some cs ∧ l = c :: cs := by
+  cases x <;> cases y <;> simp [eq_comm]
+
+theorem zipOpt_cons {α β γ} (f : α → β → Option γ) (a : α) (as : List α) (b : β) (bs : List β) :
+    zipOpt f (a :: as) (b :: bs) =
+      (match f a b, zipOpt f as bs with
+        | some c, some cs => some (c :: cs)
+        | _, _ => none) := rfl
+
+theorem zipOpt_cons_some {α β γ} {f : α → β → Option γ} {a : α} {as : List α} {b : β} {bs : List β}
+    {l : List γ} :
+    zipOpt f (a :: as) (b :: bs) = some l ↔
+      ∃ c cs, f a b = some c ∧ zipOpt f as bs = some cs ∧ l = c :: cs := by
+  rw [zipOpt_cons]; exact match_cons_some
+
+theorem zipOpt_cons_eq {α β γ} {f : α → β → Option γ} {a : α} {as : List α} {b : β} {bs : List β}
+    {c : γ} {cs : List γ} (h1 : f a b = some c) (h2 : zipOpt f as bs = some cs) :
+    zipOpt f (a :: as) (b :: bs) = some (c :: cs) :=
+  zipOpt_cons_some.mpr ⟨c, cs, h1, h2, rfl⟩
+
+theorem zipOpt_nil_left {α β γ} (f : α → β → Option γ) (bs : List β) : zipOpt f [] bs = some [] := by
+  unfold zipOpt; rfl
+
+theorem zipOpt_nil_right {α β γ} (f : α → β → Option γ) (as : List α) : zipOpt f as [] = some [] := by
+  cases as <;> (unfold zipOpt; rfl)
+
+/-- per-dimension contract for a whole grid -/
+inductive GridOK : Grid → Shape → Shape → Prop
+  | nil : GridOK [] [] []
+  | cons {d : Dim} {a G : Nat} {ds : Grid} {as Gs : Shape} :
+      DimOK d a G → GridOK ds as Gs → GridOK (d :: ds) (a :: as) (G :: Gs)
+
+theorem gridOK_new : ∀ (cfg : List DimCfg) (arr G : Shape), (Grid.new cfg).wf = true →
+    (Grid.new cfg).gridShape arr = some G → arr.length = cfg.length → GridOK (Grid.new cfg) arr G := by
+  intro cfg
+  induction cfg with
+  | nil =>
+    intro arr G _ hG hlen
+    cases arr with
+    | nil =>
+      simp only [Grid.new, List.map_nil, Grid.gridShape, zipOpt_nil_left, Option.some.injEq] at hG
+      subst hG; exact .nil
+    | cons _ _ => simp at hlen
+  | cons c cfg ih =>
+    intro arr G hwf hG hlen
+    cases arr with
+    | nil => simp at hlen
+    | cons a as =>
+      simp only [Grid.new, List.map_cons, Grid.wf, List.all_cons, Bool.and_eq_true] at hwf
+      simp only [Grid.new, List.map_cons, Grid.gridShape] at hG
+      obtain ⟨G0, Gs, h0, hs, rfl⟩ := zipOpt_cons_some.mp hG
+      exact .cons (dimOK_new c a G0 hwf.1 h0)
+        (ih as Gs hwf.2 hs (by simpa using hlen))
+
+/-- existence, uniqueness and mutual consistency of the chunk queries, N-dimensional -/
+theorem GridOK.locate {g : Grid} {arr G : Shape} (h : GridOK g arr G) :
+    ∀ i : Idx, inB i arr = true →
+    ∃ c o s e, g.chunkIndices i = some c ∧ inB c G = true ∧ g.chunkOrigin c = some o ∧
+      g.chunkShape c = some s ∧ g.chunkElementIndices i = some e ∧ addIdx e o = i ∧
+      inB e s = true ∧ Subset.mem i o s = true ∧
+      ∀ c' o' s', inB c' G = true → g.chunkOrigin c' = some o' → g.chunkShape c' = some s' →
+        Subset.mem i o' s' = true → c' = c := by
+  induction h with
+  | nil =>
+    intro i hi
+    cases i with
+    | cons _ _ => simp [inB] at hi
+    | nil =>
+      refine ⟨[], [], [], [], ?_, ?_, ?_, ?_, ?_, ?_, ?_, ?_, ?_⟩ <;>
+        try (simp [Grid.chunkIndices, Grid.chunkOrigin, Grid.chunkShape, Grid.chunkElementIndices,
+          zipOpt_nil_left, inB, addIdx, Subset.mem])
+      intro c' _ _ hc'
+      cases c' with
+      | nil => intros; rfl
+      | cons _ _ => simp [inB] at hc'
+  | @cons d a G0 ds as Gs hd _ ih =>
+    intro i hi
+    cases i with
+    | nil => simp [inB] at hi
+    | cons i0 is =>
+      simp only [inB, Bool.and_eq_true, decide_eq_true_eq] at hi
+      obtain ⟨c0, o0, s0, hc0G, hci0, ho0, hs0, hle0, hlt0, hel0⟩ := hd.locate i0 hi.1
+      obtain ⟨c, o, s, e, hci, hcG, ho, hs, hel, hadd, hes, hmem, huniq⟩ := ih is hi.2
+      refine ⟨c0 :: c, o0 :: o, s0 :: s, (i0 - o0) :: e, zipOpt_cons_eq hci0 hci, ?_,
+        zipOpt_cons_eq ho0 ho, zipOpt_cons_eq hs0 hs, zipOpt_cons_eq hel0 hel, ?_, ?_, ?_, ?_⟩
+      · simp [inB, hc0G, hcG]
+      · simp only [addIdx, hadd]; congr 1; omega
+      · simp only [inB, hes, Bool.and_true, decide_eq_true_eq]; omega
+      · simp [Subset.mem, hle0, hlt0, hmem]
+      · intro c' o' s' hc' ho' hs' hmem'
+        cases c' with
+        | nil => simp [inB] at hc'
+        | cons c0' ct' =>
+          simp only [inB, Bool.and_eq_true, decide_eq_true_eq] at hc'
+          obtain ⟨o0', ot', ho0', hot', rfl⟩ := zipOpt_cons_some.mp ho'
+          obtain ⟨s0', st', hs0', hst', rfl⟩ := zipOpt_cons_some.mp hs'
+          simp only [Subset.mem, Bool.and_eq_true, decide_eq_true_eq] at hmem'
+          have e0 : c0' = c0 :=
+            hd.uniq hc0G hc'.1 ho0 hs0 hle0 hlt0 ho0' hs0' hmem'.1.1 hmem'.1.2
+          have et : ct' = c := huniq ct' ot' st' hc'.2 hot' hst' hmem'.2
+          rw [e0, et]
+
+/-- `chunks_in_array_subset`, N-dimensional, on the start/shape lists of the region -/
+theorem GridOK.chunksIn {g : Grid} {arr G : Shape} (h : GridOK g arr G) :
+    ∀ st sh : List Nat, st.length = g.length → sh.length = g.length →
+    Subset.allLe (addIdx st sh) arr = true → sh.any (· == 0) = false →
+    ∃ cs ce, g.chunkIndices st = some cs ∧ g.chunkIndices ((addIdx st sh).map (· - 1)) = some ce ∧
+      ∀ c, Subset.mem c cs ((Subset.zipSub ce cs).map (· + 1)) = true ↔
+        (inB c G = true ∧ ∃ o s i, g.chunkOrigin c = some o ∧ g.chunkShape c = some s ∧
+          Subset.mem i o s = true ∧ Subset.mem i st sh = true) := by
+  induction h with
+  | nil =>
+    intro st sh hst hsh _ _
+    cases st with
+    | cons _ _ => simp at hst
+    | nil =>
+    cases sh with
+    | cons _ _ => simp at hsh
+    | nil =>
+      refine ⟨[], [], by simp [Grid.chunkIndices, zipOpt_nil_left],
+        by simp [Grid.chunkIndices, zipOpt_nil_left], ?_⟩
+      intro c
+      cases c with
+      | nil =>
+        simp only [Subset.zipSub, List.map_nil, Subset.mem, inB, true_and, true_iff]
+        exact ⟨[], [], [], by simp [Grid.chunkOrigin, zipOpt_nil_left],
+          by simp [Grid.chunkShape, zipOpt_nil_left], rfl, rfl⟩
+      | cons _ _ => simp [Subset.mem, inB]
+  | @cons d a G0 ds as Gs hd _ ih =>
+    intro st sh hst hsh hle hne
+    cases st with
+    | nil => simp at hst
+    | cons st0 stt =>
+    cases sh with
+    | nil => simp at hsh
+    | cons sh0 sht =>
+      simp only [addIdx, Subset.allLe, Bool.and_eq_true, decide_eq_true_eq] at hle
+      simp only [List.any_cons, Bool.or_eq_false_iff, beq_eq_false_iff_ne, ne_eq] at hne
+      obtain ⟨cs0, ce0, hcs0, hce0, hiff0⟩ := hd.chunksIn st0 sh0 hle.1 (by omega)
+      obtain ⟨cs, ce, hcs, hce, hiff⟩ := ih stt sht (by simpa using hst) (by simpa using hsh) hle.2 hne.2
+      refine ⟨cs0 :: cs, ce0 :: ce, zipOpt_cons_eq hcs0 hcs, ?_, ?_⟩
+      · simp only [addIdx, List.map_cons]
+        exact zipOpt_cons_eq hce0 hce
+      · intro c
+        cases c with
+        | nil => simp [Subset.mem, inB]
+        | cons c0 ct =>
+          simp only [Subset.zipSub, List.map_cons, Subset.mem, Bool.and_eq_true, decide_eq_true_eq,
+            inB]
+          rw [hiff0 c0, hiff ct]
+          constructor
+          · rintro ⟨⟨hc0, o0, s0, i0, ho0, hs0, h1, h2, h3, h4⟩, hct, o, s, i, ho, hs, hm1, hm2⟩
+            refine ⟨⟨hc0, hct⟩, o0 :: o, s0 :: s, i0 :: i, zipOpt_cons_eq ho0 ho,
+              zipOpt_cons_eq hs0 hs, ?_, ?_⟩
+            · simp [Subset.mem, h1, h2, hm1]
+            · simp [Subset.mem, h3, h4, hm2]
+          · rintro ⟨⟨hc0, hct⟩, o, s, i, ho, hs, hm1, hm2⟩
+            obtain ⟨o0, ot, ho0, hot, rfl⟩ := zipOpt_cons_some.mp ho
+            obtain ⟨s0, st', hs0, hst', rfl⟩ := zipOpt_cons_some.mp hs
+            cases i with
+            | nil => simp [Subset.mem] at hm1
+            | cons i0 it =>
+              simp only [Subset.mem, Bool.and_eq_true, decide_eq_true_eq] at hm1 hm2
+              exact ⟨⟨hc0, o0, s0, i0, ho0, hs0, hm1.1.1, hm1.1.2, hm2.1.1, hm2.1.2⟩,
+                hct, ot, st', it, hot, hst', hm1.2, hm2.2⟩
+
+theorem Grid.subset_eq_some {g : Grid} {c : Idx} {sub : Subset} :
+    g.subset c = some sub ↔ ∃ o s, g.chunkOrigin c = some o ∧ g.chunkShape c = some s ∧ sub = ⟨o, s⟩ := by
+  unfold Grid.subset
+  cases g.chunkOrigin c <;> cases g.chunkShape c <;> simp [eq_comm]
+
 end Zarrs
